@@ -15,7 +15,8 @@ def run(tier, seed):
         return rep.finish()
     results = regcheck.run_jobs(d, jobs, tier)
     n_dis, per_fn, samples = regcheck.account(rep, results, info)
-    cov = {'obligations': n_dis + len(rep.violations) + len(rep.undecided) + len(rep.known_hits), 'discharged': n_dis,
+    cov = {'obligations': n_dis + len(rep.violations) + len(rep.undecided), 'discharged': n_dis,   # obligations that fail as recorded known findings are counted under known_finding_obligations only
+          
            'checker_cmd': results[0][1].cmd if results else 'n/a', 'trusted_base': regcheck.TRUSTED_REG,
            'functions_under_contract': [j[0] for j, r in results], 'functions_not_under_contract': not_under,
            'per_function': per_fn, 'extraction': info, 'catalogue': cat, 'bounded': [], 'samples': samples or [{'note': 'nothing discharged'}],
